@@ -5,6 +5,7 @@ import (
 	"encoding/json"
 	"encoding/xml"
 	"fmt"
+	"github.com/versity/versitygw/s3event"
 	"os"
 	"os/exec"
 	"path/filepath"
@@ -45,7 +46,12 @@ func c20XMLBodies(root string) []string {
 		"<" + root + "><Mode>GOVERNANCE</Mode></" + root + ">", "<" + root + "><RetainUntilDate>not-a-date</RetainUntilDate></" + root + ">", "<" + root + "><Rule><DefaultRetention></DefaultRetention></Rule></" + root + ">",
 		"<" + root + "><Rule><DefaultRetention><Days>-1</Days><Years>1</Years></DefaultRetention></Rule></" + root + ">", "<" + root + "><ObjectLockEnabled>Enabled</ObjectLockEnabled><Rule><DefaultRetention><Mode>X</Mode><Days>99999999999</Days></DefaultRetention></Rule></" + root + ">",
 		"<" + root + "><AccessControlList></AccessControlList></" + root + ">", "<" + root + "><Owner></Owner><AccessControlList><Grant></Grant></AccessControlList></" + root + ">",
-		"<" + root + "><AccessControlList><Grant><Grantee></Grantee><Permission>READ</Permission></Grant></AccessControlList></" + root + ">"}
+		"<" + root + "><AccessControlList><Grant><Grantee></Grantee><Permission>READ</Permission></Grant></AccessControlList></" + root + ">",
+		"<" + root + "><AccessControlList><Grant><Permission>READ</Permission></Grant></AccessControlList></" + root + ">",
+		"<" + root + "><Owner><ID>usr1</ID></Owner><AccessControlList><Grant><Permission>READ</Permission></Grant></AccessControlList></" + root + ">",
+		"<" + root + "><Owner><ID>usr1</ID></Owner><AccessControlList><Grant><Grantee><ID>usr3</ID></Grantee></Grant></AccessControlList></" + root + ">",
+		"<" + root + "><Object><VersionId>x</VersionId></Object><Object><Key>obj1</Key></Object></" + root + ">",
+		"<" + root + "><MfaDelete>Disabled</MfaDelete></" + root + ">"}
 }
 
 var c20JSONBodies = []string{"", "{", "[]", "null", "{}", `{"Statement":null}`, `{"Statement":[null]}`, `{"Statement":[{}]}`, `{"Statement":[[]]}`, `{"Statement":{"a":1}}`, `{"Statement":[{"Effect":"Allow","Principal":null,"Action":null,"Resource":null}]}`,
@@ -207,6 +213,11 @@ func c20Cases(thorough bool) []c20Case {
 				add(ep.ID, "header:"+h, "header", v)
 			}
 		}
+		if ep.ID == "GetObject" || ep.ID == "PutObject" || ep.ID == "ListBuckets" || ep.ID == "CreateBucket" {
+			for _, n := range []int{1, 113, 114, 115, 200, 4000} {
+				add(ep.ID, "header-name", "header-name", strings.Repeat("x", n))
+			}
+		}
 		if root := c20XMLRoot(ep.ID); root != "" {
 			for _, b := range c20XMLBodies(root) {
 				add(ep.ID, "body", "xml", b)
@@ -303,6 +314,8 @@ func (c c20Case) build(w *World) *gw.Req {
 			req.Query = setQuery(req.Query, strings.TrimPrefix(field, "query:"), val)
 		case strings.HasPrefix(field, "header:"):
 			req.Set(strings.TrimPrefix(field, "header:"), sanitizeHeader(val))
+		case field == "header-name":
+			req.Set("X-"+val, "v")
 		case field == "body":
 			req.Body = []byte(val)
 		case field == "key":
@@ -399,6 +412,10 @@ const c20AllocLimit = 64 << 20
 
 // c20Worker runs cases[from..] of its shard, writing its position before every case.
 func c20Worker(r *ck.Run, cases []c20Case, shard, nshards, from int, progress string) {
+	// the gateway's debug logger prints every request to stdout
+	if null, err := os.OpenFile(os.DevNull, os.O_WRONLY, 0); err == nil {
+		os.Stdout = null
+	}
 	w := c20World()
 	defer w.Close()
 	gw.Timeout = 10 * time.Second
@@ -584,7 +601,13 @@ func panicLine(stderr string) string {
 // c20World: the standard fixture plus more in-progress uploads, versions and a delete marker,
 // so that marker / max-* combinations have something to page through.
 func c20World() *World {
-	w := NewWorld("c20", gw.Opts{Versioning: true, AccessLog: true})
+	// everything optional switched on: access logs, debug logging, event notifications to a loopback sink
+	sink := newEvSink()
+	sender, err := s3event.InitWebhookEventSender(sink.URL(), nil)
+	if err != nil {
+		ck.Fatal("event sender: %v", err)
+	}
+	w := NewWorld("c20", gw.Opts{Versioning: true, AccessLog: true, Debug: true, Events: sender})
 	for _, k := range []string{w.MpKey, "mpk2", "dir/mpk3", "a-up", "zz-up", "mpk2"} {
 		Must(w.F.Do(gw.Root, "POST", gw.ObjPath(w.Bucket, k), "uploads", nil, nil), "extra upload")
 	}
